@@ -335,6 +335,7 @@ GLOBAL_RULES = [
     ('R20', re.compile(r'(\bcmp_int_float\([^()]*\)) == Some\(Ordering::Equal\)'),
      lambda m: 'matches!(%s, Some(Ordering::Equal))' % m.group(1)),
     ('R6', re.compile(r'Value::Float\(-(\w+)\)'), lambda m: 'Value::Float(__fneg(%s))' % m.group(1)),
+    ('R6', re.compile(r'\bVal::Double\(-(\w+)\)'), lambda m: 'Val::Double(__f64_neg(%s))' % m.group(1)),
     ('R15', re.compile(r'Value::Float\((\w+) ([-+*/]) (\w+)\)'),
      lambda m: 'Value::Float(__f%s(%s, %s))' % ({'+': 'add', '-': 'sub', '*': 'mul', '/': 'div'}[m.group(2)], m.group(1), m.group(3))),
 ]
